@@ -81,9 +81,10 @@ CLAIMED = {
             "lock scopes are generated facts. Real threads are co-simulated with the model on identical schedules (all schedules of length 9/11 "
             "for 2 threads, 6/8 for 3). Receivers (each message intact to exactly one thread) are held by the oracle on real threads only.",
             "Lock acquire/release atomic; bytecode-level races inside a line not modelled.", "DESIGN.md §6 C12"),
-    "C17": ("Lean 4 theorems C17_frame_no_internal, C17_request_sizes (unconditional), C17_head_no_internal" + T_CORR,
-            "Proof: on arbitrary bytes in any chunking followed by eof/silence recv_frame returns a frame or PROTO/CLOSED/TIMEOUT, never an "
-            "internal error, never out of fuel (progress); every size passed to the transport is <= 16384 for every state/script/declared "
+    "C17": ("Lean 4 theorems C17_frame_no_internal, C17_message_no_internal, C17_request_sizes (unconditional), C17_head_no_internal" + T_CORR,
+            "Proof: on arbitrary bytes in any chunking followed by eof/silence recv_frame returns a frame or PROTO/CLOSED/TIMEOUT, and "
+            "recv_data_frame a value or PROTO/PAYLOAD/CLOSED/TIMEOUT/transport error — never an internal error, never out of fuel (each loop "
+            "turn consumes >= 2 bytes or ends: progress); every size passed to the transport is <= 16384 for every state/script/declared "
             "length; head phase: read_headers/_get_resp_headers/handshake end only in documented exceptions and read 1 byte at a time (error "
             "body <= 16384). recv() with fire_cont_frame (a caller opt-in) is outside the quantifier — see DESIGN.md.", "", "DESIGN.md §6 C17"),
     "C18": ("Lean 4 theorems C18_parse/C18_reject/C18_total/C18_dial/C18_options/C18_dispatcher" + T_CORR,
